@@ -329,6 +329,11 @@ def _eval_const(expr: str, env: dict):
         }
         if not isinstance(a, (int, float)) or not isinstance(b, (int, float)):
             raise ValueError("unsupported operand type")
+        if opcls is ast.Pow and isinstance(a, int) and isinstance(b, int):
+            # an integer power is the one operator whose result size is not linear in
+            # the size of its operands: refuse to fold what would not fit a device word
+            if abs(a) > 1 and b > 64:
+                raise ValueError("exponent too large to evaluate at transpile time")
         return ops[opcls](a, b)
 
     tree = ast.parse(expr, mode="eval")
@@ -2218,7 +2223,10 @@ def _parse_simple_lines(
                 if isinstance(value, bool):
                     return 1 if value else 0
                 if isinstance(value, (int, float)):
-                    return int(value)
+                    try:
+                        return int(value)
+                    except (OverflowError, ValueError):
+                        pass  # inf/nan: not foldable, emit the expression instead
         return _to_c_expr(arg_src, vars, ctx)
 
     def _resolve_float_arg(
@@ -2239,7 +2247,10 @@ def _parse_simple_lines(
                 if isinstance(value, bool):
                     return 1.0 if value else 0.0
                 if isinstance(value, (int, float)):
-                    return float(value)
+                    try:
+                        return float(value)
+                    except OverflowError:
+                        pass  # integer too large for a float: emit the expression instead
         return _to_c_expr(arg_src, vars, ctx)
 
     def _resolve_optional_numeric_arg(
@@ -2263,7 +2274,10 @@ def _parse_simple_lines(
                 if isinstance(value, bool):
                     return 1 if value else 0
                 if isinstance(value, (int, float)):
-                    return int(value)
+                    try:
+                        return int(value)
+                    except (OverflowError, ValueError):
+                        pass  # inf/nan: not foldable, emit the expression instead
         return _to_c_expr(text, vars, ctx)
 
     def _resolve_bool_arg(arg_src: Optional[str], default: bool) -> Union[bool, str]:
